@@ -187,10 +187,51 @@ def _ledger(run):
     run.check("R1", len(ad) == 1 and norm(ad[0].value) == "HSMCertificate.from_jsonfile(options.attestation_certificate_file_path)",
               "att_cert is the certificate loaded from the given file", key=f"{fn.qualname}|att_cert-source", where=fn.loc(),
               message="att_cert is not (only) the certificate loaded from the given file")
-    rd = [norm(d.value) for d in defs_of(A, fn, "root_authority")]
-    run.check("R1", sorted(rd) == sorted(["DEFAULT_ROOT_AUTHORITY", "options.root_authority", "HSMCertificateRoot(root_authority)"]),
-              "root_authority is the default or the operator-chosen key, parsed", key=f"{fn.qualname}|root-source", where=fn.loc(),
-              message=f"root_authority definitions changed: {rd}")
+    # the root of trust: HSMCertificateRoot(<the operator's key when one is given and is hex, else the built-in default>).  Decided on the table of
+    # paths to the constructor call: GIVEN = (options.root_authority is not None), HEX = is_nonempty_hex_string(options.root_authority).
+    from sa.decide import Walker, cmp_parts
+
+    def root_atom(e):
+        cp = cmp_parts(e)
+        if cp is not None:
+            l, op, r = cp
+            if norm(l) == "options.root_authority" and isinstance(r, ast.Constant) and r.value is None and op in ("is", "is not", "==", "!="):
+                return ("GIVEN", op in ("is not", "!="))
+        if isinstance(e, ast.Call) and norm(e) == "is_nonempty_hex_string(options.root_authority)":
+            return ("HEX", True)
+        return None
+    rc = [c for c in find_calls(A, fn, "HSMCertificateRoot") if norm(c.func) == "HSMCertificateRoot"]
+    run.check("R1", len(rc) == 1 and len(rc[0].args) == 1, "one HSMCertificateRoot(..) construction", key=f"{fn.qualname}|root-source", where=fn.loc(),
+              message=f"the root of trust is constructed {len(rc)} times")
+    n_root = 0
+    for c in rc[:1]:
+        for cn in g.nodes_of(c):
+            for lf in Walker(A, fn, None, root_atom).walk(g.entry, stops={cn}):
+                if lf.kind != "stop":
+                    okx = lf.kind == "raise" and isinstance(lf.value, ast.Call) and norm(lf.value.func) == "AdminError"
+                    run.check("R1", okx, "before the root is parsed the command only leaves through AdminError", key=f"{fn.qualname}|root-source|early-exit",
+                              where=fn.loc(lf.node.ast) if lf.node.ast is not None else fn.loc(), message=f"the command does `{lf.kind}` at line {lf.node.lineno} before a root of trust exists")
+                    continue
+                n_root += 1
+                arg = norm(lf.deep(c.args[0]))
+                given, hx = lf.pc.get("GIVEN"), lf.pc.get("HEX")
+                if given:
+                    okx = arg == "options.root_authority" and hx is True
+                    why = f"with a root authority given the constructor gets `{arg}` (hex check passed: {hx})"
+                else:
+                    okx = given is False and arg in ("DEFAULT_ROOT_AUTHORITY", norm(ast.Constant(value=consts.get("DEFAULT_ROOT_AUTHORITY")))) 
+                    why = f"with no root authority given ({'tested' if given is False else 'never tested'}) the constructor gets `{arg}`"
+                run.check("R1", okx, "root = the operator's hex key if given, else the default", key=f"{fn.qualname}|root-source", where=fn.loc(c),
+                          message=f"{why}; expected the validated options.root_authority when given, DEFAULT_ROOT_AUTHORITY otherwise")
+    run.floor("R1", "paths to the root construction", n_root, 2)
+    PVr = Prov(A, max_variants=64)
+    ra_ = {_strip(x) for c in find_calls(A, fn, "validate_and_get_values") for cn in g.nodes_of(c) for a_ in c.args[:1]
+           for x in PVr.expand_consistent(fn, None, a_, cn)}
+    dflt_ = {"DEFAULT_ROOT_AUTHORITY", norm(ast.Constant(value=consts.get("DEFAULT_ROOT_AUTHORITY")))}
+    okr_ = bool(ra_) and all(x.startswith("HSMCertificateRoot(") and x.endswith(")") and (x[len("HSMCertificateRoot("):-1] in dflt_ | {"options.root_authority"})
+                             for x in ra_)
+    run.check("R1", okr_, "the chain is validated against the root just constructed", key=f"{fn.qualname}|root-parsed", where=fn.loc(),
+              message=f"validate_and_get_values is given {sorted(ra_)[:2]}, not the HSMCertificateRoot built from the chosen root authority")
     UI = "bytes.fromhex(result['ui'][1])"
     UIS = "att_cert.validate_and_get_values(root_authority)"
     texts = v.fact_texts(g.exit)
@@ -207,11 +248,8 @@ def _ledger(run):
     H = "len(UI_MESSAGE_HEADER_REGEX.match(UIMSG).group(0))"
     uimsg = f"bytes.fromhex({res}['ui'][1])"
     hl = f"len(UI_MESSAGE_HEADER_REGEX.match({uimsg}).group(0))"
-    expected_key = ("next(filter(lambda pair: pair[0] == UI_DERIVATION_PATH, load_pubkeys(options.pubkeys_file_path).items()), "
-                    "(None, None))[1].serialize(compressed=True).hex()")
+    expected_key = "load_pubkeys(options.pubkeys_file_path).get(UI_DERIVATION_PATH).serialize(compressed=True).hex()"
     wants = [
-        ("root-parsed", ["HSMCertificateRoot(root_authority)"],
-         "the root authority was never parsed"),
         ("certificate-loaded", ["HSMCertificate.from_jsonfile(options.attestation_certificate_file_path)"],
          "the certificate file was never loaded"),
         ("ui-present", [f"'ui' in {res}"], "the certificate has no `ui` target"),
